@@ -445,6 +445,14 @@ def run_c16(prop, tier, seed, t0):
             for s in range(gsh):
                 argv = [exe, "getters", "--shard", str(s), "--nshards", str(gsh), "--digest", "--parity", par]
                 jobs.append(Job(f"{c}/{par}/get:{s}", argv, build=c, timeout=2400))
+    # reader / writer conformance engines: per-case outcome digests (which calls panic, how far the cursors
+    # moved) in debug vs release, both parities
+    rcount = "15000" if quick else "400000"
+    for c in ["dbg", "rel", "dbg-xp", "rel-xp"]:
+        exe = binpath(c, "bufconf")
+        for par in ("even", "odd"):
+            jobs.append(Job(f"{c}/{par}/rd:0", [exe, "readers", "--seed", str(seed), "--count", rcount, "--digest", "--parity", par], build=c, timeout=2400))
+            jobs.append(Job(f"{c}/{par}/wr:0", [exe, "writers", "--seed", str(seed), "--count", rcount, "--digest", "--parity", par], build=c, timeout=2400))
     # pointer width and endianness as configuration axes: slices of the same table under Miri
     tot = 600
     picks = [(seed * 41 + k * 97) % tot for k in range(2 if quick else 8)]
@@ -494,7 +502,7 @@ def run_c16(prop, tier, seed, t0):
     if compared:
         agg.samples.insert(0, f"{compared} (stream, case) keys compared across up to {agg.counters['configurations']} configurations, e.g. " + "; ".join(f"{k[0]}:{k[1]} -> {sorted(set(v.values()))[0]} in {len(v)} configs" for k, v in list(sorted(table.items()))[:3]))
     rule = ("the same seeded histories (seqdrive walks: general, with out-of-contract calls, BytesMut-centred, both) are executed in {debug, release} x {default, no-default-features, extra-platforms} x {even, odd} buffer-address parity and a per-history digest of all observable results "
-            "(contents, lengths, capacities, is_unique/try_reclaim/getter return values, which calls panicked; never addresses or messages) is compared for equality; likewise per-row digests of the getter table across {dbg, rel} x {default, extra-platforms} x parity, and for seeded slices of it under Miri host / i686 (32-bit) / s390x (big-endian, _ne rows excluded). "
+            "(contents, lengths, capacities, is_unique/try_reclaim/getter return values, which calls panicked; never addresses or messages) is compared for equality; likewise per-case outcome digests of the reader and writer conformance engines and per-row digests of the getter table across {dbg, rel} x {default, extra-platforms} x parity, and for seeded slices of it under Miri host / i686 (32-bit) / s390x (big-endian, _ne rows excluded). "
             "evaluations = (stream, case) keys compared; a cell = stream x number of configurations x agreement x bucket.")
     return finish(prop, tier, seed, agg, t0, "exploration", rule, min_eval_key="digest_keys_compared",
                   assumptions=["the generators make the same choices in every configuration (choices depend on model state, lengths and capacities only); a divergence in choices shows up as a digest difference and is investigated as such",
